@@ -1,6 +1,7 @@
 (* C06 proofs, part 12: exposed-value cookies are in step with the session cookie.
-   save() calls update_exposed(force_update || how_==renew): every save in renew mode, and every renewal of an unchanged
-   session, re-sends the cookie of every exposed value with the lifetime the session cookie has just been given. *)
+   save() calls update_exposed(force_update, new_session_ || how_!=fixed): every save that gives the session cookie a new
+   lifetime (renew and browser mode; a new or reset session in fixed mode), and every renewal of an unchanged session, re-sends
+   the cookie of every exposed value with the lifetime the session cookie has just been given. *)
 From CppcmsV Require Import Base.Tac C06.Defs C06.Proofs C06.ProofsNum C06.ProofsMap C06.Proofs2 C06.Proofs3 C06.Proofs4 C06.Proofs5 C06.Proofs6 C06.Proofs7 C06.Proofs8 C06.Proofs10.
 Local Open Scope N_scope.
 
@@ -16,6 +17,9 @@ Proof.
   apply IH. apply ssorted_op. exact H.
 Qed.
 
+(* the save gives the session cookie a new lifetime: always in renew / browser mode, in fixed mode for a new or reset session *)
+Definition lifetime_renewed (s : sess) : bool := newsess_of s || negb (s_how s =? 0)%Z.
+
 Section Fresh.
 Variable fresh : N -> bytes.
 
@@ -28,7 +32,7 @@ Lemma si_save_exposed : forall c w b s blob w1 l1 ex,
   age_exp (w_now w) (cookie_age (w_now w) s (newsess_of s)) = Some ex ->
   (exists ck, j_sess (get_jar w1 b) = Some (ck, ex)) /\
   forall k v, dfind k (s_data s) = Some (v, true) -> v <> [] ->
-    s_how s = 1%Z \/ entry_changed (s_copy s) k v = true ->
+    lifetime_renewed s = true \/ entry_changed (s_copy s) k v = true ->
     In (k, (v, ex)) (j_exp (get_jar w1 b)).
 Proof.
   intros c w b s blob w1 l1 ex Hd Hs Hk Hb Hsave Hex.
@@ -41,7 +45,7 @@ Proof.
     unfold jar_set_sess. rewrite Hex. reflexivity.
   - intros k v Hf Hv Hc. unfold get_jar at 1. cbn [w_jars]. rewrite nth_set_nth_same. cbn [j_exp].
     apply update_exposed_sends; try assumption.
-    destruct Hc as [Hr|Hc]; [left; rewrite Hr; apply orb_true_r|right; exact Hc].
+    destruct Hc as [Hr|Hc]; [right; left; exact Hr|right; right; exact Hc].
 Qed.
 
 (* a request whose save goes through, then any history in which nobody touches b's jar (requests of other browsers,
@@ -59,7 +63,7 @@ Theorem exposed_in_step_history : forall c w b script1 s' blob ex l,
   let j := jar_expire (w_now w2) (get_jar w2 b) in
   (exists ck, j_sess j = Some (ck, ex)) /\
   forall k v, dfind k (s_data s') = Some (v, true) -> v <> [] ->
-    s_how s' = 1%Z \/ entry_changed (s_copy s') k v = true ->
+    lifetime_renewed s' = true \/ entry_changed (s_copy s') k v = true ->
     In (k, (v, ex)) (j_exp j).
 Proof.
   intros c w b script1 s' blob ex l Hrs Hd Hk Hb Hexc Hex w1 Hfor w2 Hlive j.
